@@ -385,6 +385,11 @@ class Ctx:
 
     def finish(self, level=None):
         level = level or self.level
+        if level == "partial":
+            # the evidence schema has no "partial" level: the claim is a proof whose theorem covers part of the
+            # property; what is missing is spelled out in the assumptions and in MANIFEST level_note
+            level = "proof"
+            self.cov["partial"] = True
         known_keys = self.known_keys()
         viol = 0
         printed = set()
